@@ -111,3 +111,17 @@ Theorem C16_every_write_replaces_the_previous_one : forall c ops, hist_ok ops ->
   forall h1 x h2, w_hist (fst (run_ops c ops)) = h1 ++ x :: h2 -> exists a, In (TStore (lastrun h1 x) x a) (trace_of c ops).
 Proof. exact writes_are_announced. Qed.
 Print Assumptions C16_every_write_replaces_the_previous_one.
+
+(* the IF-AND-ONLY-IF of the object hand-over, on the persisted record (proofs/Determined.v): whenever a write changes a run's
+   object it is the data-deletion rewrite, or the run becomes Running / Completed holding exactly the object that a function
+   configured for the PERSISTED status leaves on the PERSISTED object when it returns the status being written *)
+From WF Require Import proofs.EffectFacts proofs.Determined.
+Theorem C16_object_changes_only_by_a_configured_function : forall c ops, hist_ok ops ->
+  forall p r a, In (TStore (Some p) r a) (trace_of c ops) -> r_obj r <> r_obj p ->
+  (r_state r = RSDataDeleted /\ r_status r = r_status p /\ r_obj r = scrub_obj c (r_obj p)) \/
+  ((r_state r = RSRunning \/ r_state r = RSCompleted) /\
+   exists u b mark, configured c u b (r_status p) /\
+     final_beh b (obj_seed (r_obj p)) = (mark, ARet (r_status r)) /\
+     r_obj r = (if mark then mark_obj (r_obj p) (r_status p) else r_obj p)).
+Proof. exact object_changes_only_by_function. Qed.
+Print Assumptions C16_object_changes_only_by_a_configured_function.
